@@ -75,4 +75,3 @@ Qed.
 (* order independence: all_in is permutation invariant *)
 Lemma all_in_perm x l l' : Permutation l l' -> all_in x l = all_in x l'.
 Proof. unfold all_in. induction 1; simpl; auto; try congruence. rewrite !andb_assoc, (andb_comm (mem x y)). reflexivity. Qed.
-Print Assumptions retrieve_hint.
